@@ -4,10 +4,16 @@
    dense_sum = sum of the stored blocks), Model/TensorOps.v (operations as the code performs them on _data/_qdata),
    Model/Labels.v (label functions).  All statements are for every rank, every number and size of charge blocks,
    every number of charges and every number of stored blocks.
-   NOT proved here (checked by the numpy oracle of harness/c01.py only): tensordot values, inner, trace, combine/split_legs,
-   indexing, concatenation, scale_axis, permutations; the nested case of _conj_leg_label. *)
-From TenpyV Require Import Base.Prelude Model.Charge Model.Tensor Model.TensorOps Model.Labels.
+   Model/TensorDot.v adds the block VALUES of tensordot (block matrix products, summed per result row) to the row / charge
+   bookkeeping of TensorOps.v, and np.tensordot on dense arrays as a finite sum (d_tensordot); Model/LabelGrammar.v is the
+   grammar of (nested) leg labels as a syntax tree.
+   Model/TakeSlice.v is take_slice on one axis as read from the source (no correspondence stream records take_slice).
+   NOT proved here (checked by the numpy oracle of harness/c01.py only): inner, trace, combine/split_legs,
+   general indexing, concatenation, scale_axis, permutations. *)
+From TenpyV Require Import Base.Prelude Model.Charge Model.Tensor Model.TensorOps Model.Labels Model.TensorDot Model.LabelGrammar.
+From TenpyV Require Import Model.TensorDotFilter Model.TakeSlice.
 From TenpyV Require Import Proofs.ChargeP Proofs.TensorP Proofs.TensorP2 Proofs.LabelsP.
+From TenpyV Require Import Proofs.TensorP3 Proofs.TensorDotP Proofs.LabelsP2 Proofs.TensorDotFilterP Proofs.TakeSliceP.
 From Coq Require Import Ascii.
 Open Scope Z_scope.
 
@@ -47,23 +53,91 @@ Theorem T01_add_needs_truthful_claim :
   (cadd (to_ndarray bad_claim_example [0%nat]) (cmul (1, 0) (to_ndarray good_claim_example [0%nat])) = (14, 0)).
 Proof. exact bad_claim_breaks_add. Qed.
 
-(* outer: c[i, j] = a[i] * b[j], proved for the sum of the stored blocks.
-   Missing for the full statement about to_ndarray: that the rows of the grid of block pairs are pairwise distinct
-   (then T01_blocks_disjoint applies). *)
-Theorem T01_outer_partial : forall ci a b ia ib, rows_shape a -> length ia = rank a ->
+(* outer: c[i ++ j] = a[i] * b[j] for the ASSIGNMENT semantics of to_ndarray, for well-formed operands and every index with at
+   least rank(a) entries (the grid of block pairs has pairwise distinct rows, so no block overwrites another one;
+   WF of the result, including the truth of the claim _qdata_sorted = a.sorted and b.sorted, is T02_wf_outer) *)
+Theorem T01_outer : forall ci a b idx, WF ci a -> WF ci b -> (rank a <= length idx)%nat ->
+  to_ndarray (outer ci a b) idx = cmul (to_ndarray a (firstn (rank a) idx)) (to_ndarray b (skipn (rank a) idx)).
+Proof. exact outer_dense. Qed.
+
+(* ... on the level of sums of blocks no well-formedness of b is needed *)
+Theorem T01_outer_blocksum : forall ci a b ia ib, rows_shape a -> length ia = rank a ->
   dense_sum (outer ci a b) (ia ++ ib) = cmul (dense_sum a ia) (dense_sum b ib).
 Proof. exact outer_dense_sum. Qed.
+
+(* tensordot(a, b, axes=k) over the last k legs of a and the first k legs of b, any ranks, any k:
+   the dense form of the block-sparse result (blocks = sums of block matrix products over the pairs of blocks with equal
+   contracted qindices) is the finite sum over ALL contracted multi-indices c of  A[ia ++ c] * B[c ++ ib].
+   Entries whose contracted multi-indices lie in different charge blocks never meet; missing blocks contribute 0 on both sides. *)
+Theorem T01_tensordot : forall ci k a b idx, WF ci a -> WF ci b -> (k <= rank a)%nat -> (k <= rank b)%nat ->
+  Forall2 (contractible ci) (skipn (rank a - k) (legs a)) (firstn k (legs b)) ->
+  (rank a - k <= length idx)%nat ->
+  to_ndarray (tensordot ci k a b) idx
+  = d_tensordot (to_ndarray a) (to_ndarray b) (map ind_len (skipn (rank a - k) (legs a))) (rank a - k) idx.
+Proof. exact tensordot_dense. Qed.
+
+(* ... on the level of sums of blocks only equal block sizes of the contracted legs are needed (no charge rule, any block order,
+   duplicate rows allowed) *)
+Theorem T01_tensordot_blocksum : forall ci k a b idx,
+  rows_shape a -> rows_shape b -> (k <= rank a)%nat -> (k <= rank b)%nat ->
+  map bsz (skipn (rank a - k) (legs a)) = map bsz (firstn k (legs b)) ->
+  (rank a - k <= length idx)%nat ->
+  dense_sum (tensordot ci k a b) idx
+  = d_tensordot (dense_sum a) (dense_sum b) (map ind_len (skipn (rank a - k) (legs a))) (rank a - k) idx.
+Proof. exact tensordot_dense_sum. Qed.
+
+(* the value model is tied to the correspondence-checked row model of TensorOps.v: one product per row of tdot_rows *)
+Theorem T01_tensordot_rows : forall ci k a b,
+  map fst (tdot_pairs k a b) = tdot_rows k a b /\
+  (forall r, In r (rows (tensordot ci k a b)) <-> In r (tdot_rows k a b)) /\
+  legs (tensordot ci k a b) = tdot_legs k a b /\ qtot (tensordot ci k a b) = tdot_qtot ci a b.
+Proof. exact tensordot_rows_tie. Qed.
+
+(* THIS is where tensordot needs C02: _tensordot_worker only computes result blocks whose kept charges are compatible with the
+   new total charge (a_lookup_charges / b_charges_match; Model/TensorDotFilter.v drops the other blocks).  For well-formed
+   operands (charge rule) nothing is dropped ... *)
+Theorem T01_tensordot_charge_lookup : forall ci k a b, valid_ci ci -> WF ci a -> WF ci b -> (k <= rank a)%nat -> (k <= rank b)%nat ->
+  Forall2 (contractible ci) (skipn (rank a - k) (legs a)) (firstn k (legs b)) ->
+  tensordot_filtered ci k a b = tensordot ci k a b.
+Proof. exact tensordot_filter_id. Qed.
+
+(* ... and for an operand violating the charge rule the look-up loses a non-zero entry *)
+Theorem T01_tensordot_lookup_needs_charge_rule :
+  to_ndarray (tensordot [1] 1 nf_a nf_a) [0%nat; 0%nat] = (1, 0) /\
+  to_ndarray (tensordot_filtered [1] 1 nf_a nf_a) [0%nat; 0%nat] = (0, 0).
+Proof. exact filter_needs_charge_rule. Qed.
+
+(* take_slice(i, axis) on one axis (Model/TakeSlice.v, the algorithm read from the source; NOT correspondence-checked):
+   the result is well-formed and  res[idx] = a[idx with i inserted at position ax] *)
+Theorem T01_take_slice : forall ci ax i a, valid_ci ci -> WF ci a -> (ax < rank a)%nat ->
+  (i < ind_len (nth ax (legs a) dleg))%nat ->
+  length (nth (get_qindex (nth ax (legs a) dleg) i) (bch (nth ax (legs a) dleg)) []) = length ci ->
+  WF ci (take_slice ci ax i a) /\
+  (forall idx, (ax <= length idx)%nat -> to_ndarray (take_slice ci ax i a) idx = to_ndarray a (insert_at ax i idx)).
+Proof. exact take_slice_full. Qed.
+
+(* ... on the level of sums of blocks *)
+Theorem T01_take_slice_blocksum : forall ci ax i a idx, rows_shape a -> (ax < rank a)%nat ->
+  (i < ind_len (nth ax (legs a) dleg))%nat -> (ax <= length idx)%nat ->
+  dense_sum (take_slice ci ax i a) idx = dense_sum a (insert_at ax i idx).
+Proof. exact take_slice_dense_sum. Qed.
 
 (* labels: _split_leg_label(_combine_leg_labels(ls), len(ls)) = ls with '?#' -> None, nested parentheses of any depth *)
 Theorem T01_split_combine_labels : forall ls, ls <> [] -> Forall wf_label ls ->
   split_label (combine_labels ls) (length ls) = Some (map strip_q ls).
 Proof. exact split_combine. Qed.
 
-(* _conj_leg_label: 'a' -> 'a*' -> 'a' for atomic labels of any length.
-   Missing: labels with parentheses (str.replace('**', '') on nested labels); checked by correspondence only. *)
-Theorem T01_conj_label_involutive_partial : forall a, a <> [] -> forallb atom_char a = true ->
-  conj_label a = (a ++ ["*"%char])%list /\ conj_label (a ++ ["*"%char]) = a.
-Proof. exact conj_label_atom. Qed.
+(* _conj_leg_label on EVERY label of the grammar  label ::= atom | atom STAR | LPAR label (DOT label)... RPAR  (any nesting depth,
+   Model/LabelGrammar.v): the algorithm of the code (insert a star after every atom, then str.replace of two stars by nothing)
+   computes the documented structural conjugation tconj (toggle the star of every atom), the result is again a label of the
+   grammar, and conjugating twice gives the label back *)
+Theorem T01_conj_label_involutive : forall t, twf t = true ->
+  conj_label (render t) = render (tconj t) /\ twf (tconj t) = true /\ conj_label (conj_label (render t)) = render t.
+Proof. exact conj_label_involutive. Qed.
+
+(* the labels of the grammar are labels in the sense of T01_split_combine_labels *)
+Theorem T01_grammar_wf_label : forall t, twf t = true -> wf_label (render t).
+Proof. exact render_wf_label. Qed.
 
 (* non-vacuity: a well-formed array with two charges (U(1) x Z_2), unsorted duplicated charge blocks, nonzero qtotal *)
 Definition ex_leg1 : leg := mkLeg [1%nat; 2%nat; 0%nat] [[1; 1]; [0; 0]; [1; 1]] 1.
@@ -87,6 +161,44 @@ Example T01_example_labels :
   Some [Some ["a"%char]; Some ["("; "b"; "."; "?"; "1"; ")"]%char; None].
 Proof. vm_compute. reflexivity. Qed.
 
+(* non-vacuity of T01_outer: an entry of outer(ex_arr, ex_arr) that is a product of two non-zero entries *)
+Example T01_example_outer :
+  to_ndarray (outer [1; 2] ex_arr ex_arr) [0%nat; 1%nat; 0%nat; 0%nat] = cmul (2, 2) (1, 2) /\
+  length (blks (outer [1; 2] ex_arr ex_arr)) = 4%nat.
+Proof. vm_compute. split; reflexivity. Qed.
+
+(* non-vacuity of T01_tensordot: b = conj(transpose(ex_arr)) has the leg conj(ex_leg2) first, contractible with the last leg of ex_arr *)
+Definition ex_arr_b : arr := conj [1; 2] (transpose [1%nat; 0%nat] ex_arr).
+Example T01_example_wf_b : WF [1; 2] ex_arr_b.
+Proof.
+  apply wf_conj; [repeat constructor; lia|]. apply wf_transpose; [|exact T01_example_wf].
+  apply perm_swap.
+Qed.
+Example T01_example_contractible :
+  Forall2 (contractible [1; 2]) (skipn (rank ex_arr - 1) (legs ex_arr)) (firstn 1 (legs ex_arr_b)).
+Proof. repeat constructor; apply (contractible_conj [1; 2] ex_leg2). Qed.
+(* sum_j a[0, j] * conj(a[0, j]) = |1+2i|^2 + |2+2i|^2 = 13 *)
+Example T01_example_tensordot_value :
+  to_ndarray (tensordot [1; 2] 1 ex_arr ex_arr_b) [0%nat; 0%nat] = (13, 0) /\
+  d_tensordot (to_ndarray ex_arr) (to_ndarray ex_arr_b) [3%nat] 1 [0%nat; 0%nat] = (13, 0).
+Proof. vm_compute. split; reflexivity. Qed.
+
+(* non-vacuity of T01_take_slice: ex_arr[1, :] (index 1 of the first leg lies in charge block 1, which stores nothing) and
+   ex_arr[0, :] (block 0) *)
+Example T01_example_take_slice :
+  length (nth (get_qindex (nth 0 (legs ex_arr) dleg) 0) (bch (nth 0 (legs ex_arr) dleg)) []) = length [1; 2] /\
+  map (to_ndarray (take_slice [1; 2] 0 0 ex_arr)) [[0%nat]; [1%nat]; [2%nat]] = [(1, 2); (2, 2); (0, 0)] /\
+  qtot (take_slice [1; 2] 0 0 ex_arr) = [0; 1] /\ rows (take_slice [1; 2] 0 0 ex_arr) = [[0%nat]].
+Proof. vm_compute. repeat split; reflexivity. Qed.
+
+(* non-vacuity of T01_conj_label_involutive: the example of the docstring of _conj_leg_label (see the strings below) *)
+Definition ex_tree : ltree := LPipe [LAtom ["a"%char] false; LPipe [LAtom ["b"%char] true; LAtom ["c"%char] false]].
+Example T01_example_label_tree :
+  twf ex_tree = true /\
+  render ex_tree = ["("; "a"; "."; "("; "b"; "*"; "."; "c"; ")"; ")"]%char /\
+  conj_label (render ex_tree) = ["("; "a"; "*"; "."; "("; "b"; "."; "c"; "*"; ")"; ")"]%char.
+Proof. vm_compute. repeat split; reflexivity. Qed.
+
 Print Assumptions T01_transpose.
 Print Assumptions T01_conj.
 Print Assumptions T01_scale.
@@ -94,6 +206,15 @@ Print Assumptions T01_blocks_disjoint.
 Print Assumptions T01_add.
 Print Assumptions T01_add_blocksum.
 Print Assumptions T01_add_needs_truthful_claim.
-Print Assumptions T01_outer_partial.
+Print Assumptions T01_outer.
+Print Assumptions T01_outer_blocksum.
+Print Assumptions T01_tensordot.
+Print Assumptions T01_tensordot_blocksum.
+Print Assumptions T01_tensordot_rows.
+Print Assumptions T01_tensordot_charge_lookup.
+Print Assumptions T01_tensordot_lookup_needs_charge_rule.
+Print Assumptions T01_take_slice.
+Print Assumptions T01_take_slice_blocksum.
 Print Assumptions T01_split_combine_labels.
-Print Assumptions T01_conj_label_involutive_partial.
+Print Assumptions T01_conj_label_involutive.
+Print Assumptions T01_grammar_wf_label.
